@@ -261,6 +261,17 @@ CLAIMED = {
              "printed is the one the model selects.",
         technique="Coq proof (permutation invariance of sorted reporters) + differential runs of the real binary across thread counts, groupings and perturbed schedules",
         design_ref="DESIGN.md §3 C26"),
+    "C06": dict(
+        text="S1: the four mechanisms that keep scheduling and the previous file contents out of the output, each modelled and proved for every schedule: results stored by index equal "
+             "`map f [0..n)` for every completion order; a collection sorted by a key that identifies its elements is the same list for every arrival order; per-group results parked and "
+             "consumed strictly by group index come out in group order for every completion order, with nothing left parked; a buffer tiled by data and padding regions, padding zero-filled, "
+             "does not depend on its previous contents (refuted without the zero fill); the build ID, a function of the bytes, inherits this.",
+        note="Partial: the mechanisms are proved separately; that every meeting point of parallel work and shared state in wild uses one of them is established by differential runs only. Tie: "
+             "a C corpus (debug info, mergeable strings, TLS, weak symbols) and generated programs, linked static/PIE/shared/relocatable under thread counts, groupings, string-merge experiments, "
+             "perturbed schedules, fork/no-fork and over prior output states incl. --update-in-place and a running executable: all outputs byte-identical; small outputs re-derived by the "
+             "model's write_regions from the layout trace over a 0xa5-filled file.",
+        technique="Coq proof (permutation / completion-order invariance of the four mechanisms) + byte-for-byte differential runs of the real binary",
+        design_ref="DESIGN.md §3 C06"),
     "C10": dict(
         text="S1: Gallina model of what wild writes for unwinding (an FDE is kept iff the section its pc-begin points into was loaded and is not empty; one search-table entry per kept FDE with "
              "hdr-relative signed start and FDE pointer; the table sorted by the signed start) and of the consumer (the last entry with start <= pc, then the range check — what libgcc's binary "
